@@ -1,4 +1,5 @@
-"""C07 - partition-family check (see props/partlib.py)."""
+"""C07 - partition-family check (see props/partlib.py) plus group lifecycle and isolation across streams / topics / transports."""
+import json
 from props import partlib
 
 ASSUMPTIONS = [
@@ -41,6 +42,42 @@ def group_lifecycle(rng, tid):
     return {"id": tid, "cfg": {"req": rng.choice([1, 1000]), "cache": False}, "ops": ops}, expect
 
 
+def isolation(rng, tid):
+    """offsets of individual consumers (numeric and named) in several streams / topics / partitions, written, read and deleted over the
+    binary protocol and over HTTP: each is exactly what was last stored under that very key, whatever happens to the others"""
+    ops = []
+    for s in (1, 2):
+        ops.append({"op": "create_stream", "name": "s%d" % s, "id": s})
+        for t in (1, 2):
+            ops.append({"op": "create_topic", "stream": s, "name": "t%d" % t, "parts": 2, "id": t})
+            for p in (1, 2):
+                ops.append({"op": "send", "stream": s, "topic": t, "part": {"kind": "pid", "id": p}, "msgs": [{"id": 100 * s + 10 * t + i, "len": 5} for i in range(1, 7)]})
+    spec, expect = {}, {}
+    consumers = [1, 2, "ca"]
+    for _ in range(rng.randrange(25, 45)):
+        key = (rng.choice([1, 2]), rng.choice([1, 2]), rng.choice([1, 2]), rng.choice(consumers))
+        base = {"stream": key[0], "topic": key[1], "partition": key[2], "consumer": {"kind": "consumer", "id": key[3]}}
+        if rng.random() < 0.5:
+            base["c"] = "httproot"
+        k = rng.choice(["store", "store", "get", "get", "delete", "restart"])
+        if k == "store":
+            v = rng.randrange(0, 6)
+            ops.append(dict(base, op="store_offset", offset=v))
+            spec[key] = v
+        elif k == "get":
+            ops.append(dict(base, op="get_offset"))
+            expect[len(ops) - 1] = spec.get(key)
+        elif k == "delete":
+            ops.append(dict(base, op="delete_offset"))
+            spec.pop(key, None)
+        else:
+            ops.append({"op": "restart"})
+    for key in sorted(spec.keys() | {(s, t, p, c) for s in (1, 2) for t in (1, 2) for p in (1, 2) for c in consumers}, key=str):
+        ops.append({"op": "get_offset", "stream": key[0], "topic": key[1], "partition": key[2], "consumer": {"kind": "consumer", "id": key[3]}})
+        expect[len(ops) - 1] = spec.get(key)
+    return {"id": tid, "cfg": {"req": rng.choice([1, 1000]), "cache": False}, "ops": ops}, expect
+
+
 def run(out, tier, seed, gate):
     cov = partlib.check(out, tier, seed, "C07")
     from vlib import harness, util
@@ -61,6 +98,29 @@ def run(out, tier, seed, gate):
                                   "what": "after a consumer group was deleted (and one with the same number created), the stored offset of the %s with that number is %s, expected %s" % (kind, got, want)})
                     reported += 1
                 break
+    ni = 8 if tier == "quick" else 80
+    pairs = [isolation(rng, "C07-iso%d" % i) for i in range(ni)]
+    impl = harness.run_traces("srv", [t for t, _ in pairs], shards=min(4, ni))
+    gets = 0
+    for t, expect in pairs:
+        ob = impl[t["id"]]
+        outs = ob.get("outs", [])
+        for i, want in sorted(expect.items()):
+            o = outs[i] if i < len(outs) else {"r": "missing"}
+            # over HTTP "nothing stored" is answered 404
+            none = (o.get("r") == "ok" and not o.get("some")) or (t["ops"][i].get("c") == "httproot" and o.get("r") == "err" and o.get("http") == 404) \
+                or (t["ops"][i].get("c") == "httproot" and o.get("name") in ("resource_not_found", "not_found"))
+            got = o.get("stored") if (o.get("r") == "ok" and o.get("some")) else (None if none else "?")
+            gets += 1
+            if "crash" in ob or got != want:
+                if reported < 3:
+                    out.violation("isolation-%s-%d" % (t["id"], i), {"kind": "spec-monitor", "mode": "srv", "trace": {"id": t["id"], "cfg": t["cfg"], "ops": t["ops"][:i + 1]}, "response": o, "expected": want,
+                                  "what": "the offset read for %s is %s, but the last value stored and not deleted under exactly that stream / topic / partition / consumer is %s" % (json.dumps(t["ops"][i]["consumer"]), got, want)})
+                    reported += 1
+                break
+    if isinstance(cov, dict):
+        cov["isolation_traces"] = ni
+        cov["isolation_reads_checked"] = gets
     if isinstance(cov, dict):
         cov["group_lifecycle_traces"] = n
     return cov
